@@ -28,9 +28,11 @@ type sJob struct {
 	Roots    [][]int
 	Deadline int64 // unix seconds, 0 = none
 	Confirm  []int // non-nil: re-execute exactly this choice sequence
+	Split    int   // > 0: explore breadth-first until this many subtree roots are pending and return them
 }
 
 type sRes struct {
+	Roots   [][]int
 	Stats   *rt.ExploreStats
 	Confirm []string
 	Names   []string
@@ -69,6 +71,8 @@ func WorkSchedules(scs []*SScenario, job json.RawMessage) json.RawMessage {
 			}
 		}
 		res.Windows = out.Res.Windows
+	} else if j.Split > 0 {
+		res.Roots, res.Stats = rt.Split(sc.Run, sc.opts(j.Bound, j.Cache), j.Split)
 	} else {
 		o := sc.opts(j.Bound, j.Cache)
 		o.Roots = j.Roots
@@ -95,6 +99,8 @@ type SPlan struct {
 
 // RunSchedules explores every scenario with the iterated bounds on the worker
 // pool, confirms violations by re-execution and returns coverage and findings.
+// For every bound, the scenarios are split (in workers) and their subtrees
+// explored in two pool-wide passes, so that small scenarios run in parallel.
 func RunSchedules(c *Ctx, scs []*SScenario, plan SPlan, rep *Report) {
 	if rep.Coverage == nil {
 		rep.Coverage = map[string]any{}
@@ -106,64 +112,120 @@ func RunSchedules(c *Ctx, scs []*SScenario, plan SPlan, rep *Report) {
 	defer plainPool.Close()
 	total := &rt.ExploreStats{Complete: true}
 	perScenario := map[string]any{}
-	maxBoundAll := 1 << 30
 	budgetHit := false
 	var samples []any
+	type scState struct {
+		sc         *SScenario
+		info       map[string]any
+		completed  string
+		completedI int
+		distinct   map[string]int
+		seenClause map[string]bool
+		done       bool
+	}
+	var sts []*scState
 	for _, sc := range scs {
 		if only := os.Getenv("VERIF_ONLY"); only != "" && !strings.Contains(sc.Name, only) {
 			continue
 		}
-		info := map[string]any{}
-		completed := "none"
-		completedInt := -2
-		distinct := map[string]int{}
-		seenClause := map[string]bool{}
-		for bidx, b := range plan.Bounds {
-			if time.Now().After(c.Deadline()) {
-				budgetHit = true
-				break
+		sts = append(sts, &scState{sc: sc, info: map[string]any{}, completed: "none", completedI: -2, distinct: map[string]int{}, seenClause: map[string]bool{}})
+	}
+	for bidx, b := range plan.Bounds {
+		if time.Now().After(c.Deadline()) {
+			budgetHit = true
+			break
+		}
+		cache := true // sound for bounded runs too: the key then includes the running thread and the cost so far
+		type part struct {
+			st    *scState
+			stats *rt.ExploreStats
+			roots [][]int
+			race  bool
+		}
+		var parts []*part
+		for _, st := range sts {
+			if st.done {
+				continue
 			}
-			if sc.Heavy && !c.Thorough && bidx == len(plan.Bounds)-1 && bidx > 0 {
-				break
+			if st.sc.Heavy && !c.Thorough && bidx == len(plan.Bounds)-1 && bidx > 0 {
+				continue
 			}
-			pool := racePool
-			if plan.Race && plan.RaceMaxBound > 0 && (b > plan.RaceMaxBound || b < 0 || (sc.Heavy && b >= 1)) {
-				pool = plainPool
+			race := plan.Race
+			if plan.Race && plan.RaceMaxBound > 0 && (b > plan.RaceMaxBound || b < 0 || (st.sc.Heavy && b >= 1)) {
+				race = false
 			}
-			cache := true // sound for bounded runs too: the key then includes the running thread and the cost so far
-			o := sc.opts(b, cache)
-			roots, st := rt.Split(sc.Run, o, c.Workers*20)
-			var jobs []json.RawMessage
-			for _, r := range roots {
-				jb, _ := json.Marshal(sJob{Scenario: sc.Name, Bound: b, Cache: cache, Roots: [][]int{r}, Deadline: c.Deadline().Unix()})
-				jobs = append(jobs, jb)
+			parts = append(parts, &part{st: st, race: race, stats: &rt.ExploreStats{Complete: false}})
+		}
+		runOn := func(race bool, jobs []json.RawMessage, owner []*part, handle func(p *part, r *sRes)) {
+			pool := plainPool
+			if race {
+				pool = racePool
 			}
 			crashes := pool.Map(jobs, func(i int, res json.RawMessage) {
 				var r sRes
 				if err := json.Unmarshal(res, &r); err != nil || r.Stats == nil {
-					rep.EngineErr = append(rep.EngineErr, fmt.Sprintf("%s: bad worker result: %v", sc.Name, err))
+					rep.EngineErr = append(rep.EngineErr, fmt.Sprintf("%s: bad worker result: %v", owner[i].st.sc.Name, err))
 					return
 				}
-				st.Merge(r.Stats)
+				handle(owner[i], &r)
 			})
 			for _, cr := range crashes {
+				p := owner[cr.Job]
 				if strings.Contains(cr.Stderr, "VERIFRT-WEDGE") {
-					rep.Add(sc.Name+": wedge", "a thread ran without reaching a scheduling point for 120 s\n"+tail(cr.Stderr, 3000), map[string]any{"scenario": sc.Name, "job": string(jobs[cr.Job])})
+					rep.Add(p.st.sc.Name+": wedge", "a thread ran without reaching a scheduling point for 120 s\n"+tail(cr.Stderr, 3000), map[string]any{"scenario": p.st.sc.Name, "job": string(jobs[cr.Job])})
 				} else {
-					rep.EngineErr = append(rep.EngineErr, fmt.Sprintf("%s: worker died: %s\n%s", sc.Name, cr.Err, tail(cr.Stderr, 2000)))
+					rep.EngineErr = append(rep.EngineErr, fmt.Sprintf("%s: worker died: %s\n%s", p.st.sc.Name, cr.Err, tail(cr.Stderr, 2000)))
 				}
-				st.Complete = false
+				p.stats.Complete = false
 			}
+		}
+		for _, race := range []bool{true, false} {
+			// pass 1: split every scenario (in a worker, so that every execution is seen by the race detector)
+			var jobs []json.RawMessage
+			var owner []*part
+			for _, p := range parts {
+				if p.race != race {
+					continue
+				}
+				sj, _ := json.Marshal(sJob{Scenario: p.st.sc.Name, Bound: b, Cache: cache, Split: c.Workers * 8})
+				jobs = append(jobs, sj)
+				owner = append(owner, p)
+			}
+			if len(jobs) == 0 {
+				continue
+			}
+			runOn(race, jobs, owner, func(p *part, r *sRes) { p.roots, p.stats = r.Roots, r.Stats })
+			// pass 2: all subtrees of all scenarios
+			jobs, owner = nil, nil
+			for _, p := range parts {
+				if p.race != race {
+					continue
+				}
+				for _, r := range p.roots {
+					jb, _ := json.Marshal(sJob{Scenario: p.st.sc.Name, Bound: b, Cache: cache, Roots: [][]int{r}, Deadline: c.Deadline().Unix()})
+					jobs = append(jobs, jb)
+					owner = append(owner, p)
+				}
+			}
+			if len(jobs) > 0 {
+				runOn(race, jobs, owner, func(p *part, r *sRes) { p.stats.Merge(r.Stats) })
+			}
+		}
+		for _, p := range parts {
+			st, sc := p.stats, p.st.sc
 			for _, d := range st.Diverged {
 				rep.EngineErr = append(rep.EngineErr, sc.Name+": replay divergence: "+d)
 			}
-			// confirm and record violations (fewest deviations first)
+			pool := plainPool
+			if p.race {
+				pool = racePool
+			}
 			for _, v := range st.Violations {
 				ck := sc.Name + ": " + clause(v.Msg)
-				if seenClause[ck] {
+				if p.st.seenClause[ck] {
 					continue
 				}
-				seenClause[ck] = true
+				p.st.seenClause[ck] = true
 				ok, names, windows := confirm(c, pool, sc, v)
 				if !ok {
 					rep.EngineErr = append(rep.EngineErr, fmt.Sprintf("%s: violation %q did not reproduce on re-execution of %v", sc.Name, v.Msg, v.Choices))
@@ -175,44 +237,45 @@ func RunSchedules(c *Ctx, scs []*SScenario, plan SPlan, rep *Report) {
 				rep.Add(key, v.Msg, map[string]any{"windows": windows, "scenario": sc.Name, "choices": v.Choices, "deviations": v.Deviations, "schedule": names, "timers_free": sc.TimersFree, "max_ticks": sc.MaxTicks})
 			}
 			for k, n := range st.Outcomes {
-				distinct[k] += n
+				p.st.distinct[k] += n
 			}
-			bi := map[string]any{"executions": st.Executions, "states": st.States, "transitions": st.Transitions, "pruned": st.Pruned,
+			p.st.info[boundName(b)] = map[string]any{"executions": st.Executions, "states": st.States, "transitions": st.Transitions, "pruned": st.Pruned,
 				"max_choice_depth": st.MaxDepth, "max_points": st.MaxPoints, "distinct_outcomes": len(st.Outcomes), "complete": st.Complete,
-				"violating_executions": st.NViolations, "horizon_hits": st.Horizons, "points_per_thread_max": st.PerThreadMax}
-			info[boundName(b)] = bi
-			bi["race_build"] = pool == racePool && plan.Race
+				"violating_executions": st.NViolations, "horizon_hits": st.Horizons, "points_per_thread_max": st.PerThreadMax, "race_build": p.race}
 			total.Merge(st)
 			if st.Complete {
-				completed = boundName(b)
-				completedInt = b
+				p.st.completed = boundName(b)
+				p.st.completedI = b
 				if b < 0 {
-					completedInt = 1 << 20
+					p.st.completedI = 1 << 20
 				}
 			} else {
 				budgetHit = true
-				break
+				p.st.done = true
 			}
 		}
-		info["max_bound_completed"] = completed
-		info["distinct_outcomes"] = len(distinct)
-		if len(distinct) <= 1 {
-			info["vacuity_warning"] = "a single observable outcome over all schedules: nothing collided"
+	}
+	maxBoundAll := 1 << 30
+	for _, st := range sts {
+		st.info["max_bound_completed"] = st.completed
+		st.info["distinct_outcomes"] = len(st.distinct)
+		if len(st.distinct) <= 1 {
+			st.info["vacuity_warning"] = "a single observable outcome over all schedules: nothing collided"
 		}
-		perScenario[sc.Name] = info
-		if completedInt < maxBoundAll {
-			maxBoundAll = completedInt
+		perScenario[st.sc.Name] = st.info
+		if st.completedI < maxBoundAll {
+			maxBoundAll = st.completedI
 		}
 		if len(samples) < 6 {
 			var ks []string
-			for k := range distinct {
+			for k := range st.distinct {
 				ks = append(ks, k)
 			}
 			sort.Strings(ks)
 			if len(ks) > 3 {
 				ks = ks[:3]
 			}
-			samples = append(samples, map[string]any{"scenario": sc.Name, "outcomes": ks})
+			samples = append(samples, map[string]any{"scenario": st.sc.Name, "outcomes": ks})
 		}
 	}
 	mb := "none"
@@ -235,6 +298,9 @@ func RunSchedules(c *Ctx, scs []*SScenario, plan SPlan, rep *Report) {
 	cov["bounds"] = plan.Bounds
 	cov["race_build"] = plan.Race
 	if plan.Race {
+		// the race detector's log files are complete only after the workers have exited
+		racePool.Close()
+		plainPool.Close()
 		reports := ParseRaceLogs(c.Scratch)
 		var keys []string
 		for _, r := range reports {
